@@ -181,3 +181,23 @@ def long_token_inputs():
         out.append('select ' + '9' * n)
         out.append('select' + ' ' * n + '1')
     return out
+
+
+def rule_samples(rng, per_rule=12):
+    """inputs shaped by the lexer's own rule table: random strings built along the parse tree of every regular
+    expression (every whitespace position inside a rule realised by blanks, tabs, line breaks, Unicode spaces),
+    alone and embedded in a statement"""
+    from sqlparse import keywords as K
+    from . import regexnfa
+    out = []
+    for rx, _tt in K.SQL_REGEX:
+        try:
+            ss = regexnfa.samples(rx, rng, per_rule)
+        except ValueError:
+            continue
+        for x in ss:
+            if not x or len(x) > 200:
+                continue
+            out.append(x)
+            out.append(rng.choice(['select a ', 'x\n', '(', 'a;']) + x + rng.choice([' b from t', '\n1', ')', ';c', '']))
+    return out
